@@ -150,7 +150,7 @@ func c07(r *Run) {
 	}
 	runSessions(r, cases, outputDiffers)
 	regionRaw(r, r.N(1500, 40000))
-	escRuns(r, []string{"j", "q"}, []string{"jsonEscape", "jsonQuote"})
+	escRuns(r, []string{"j", "q"}, []string{"jsonEscape", "jsonQuote"}, "jsonquote")
 }
 
 func attrExpected(in []byte) []byte {
@@ -217,7 +217,7 @@ func c08(r *Run) {
 	runEsc(r, forms, runeInputs(r, r.N(2000, 100000)), judge, second)
 	regionRel(r, "htmlescape", "html", r.N(1500, 60000))
 	regionRaw(r, r.N(1500, 40000))
-	escRuns(r, []string{"h", "a"}, []string{"htmlEscape", "attrEscape"})
+	escRuns(r, []string{"h", "a"}, []string{"htmlEscape", "attrEscape"}, "htmlescape")
 }
 
 func natsOf(s string) ([]int, bool) {
@@ -316,5 +316,5 @@ func c10(r *Run) {
 		}
 	}
 	runSessions(r, cases, outputDiffers)
-	escRuns(r, []string{"J", "c"}, []string{"jsEscape", "cssEscape"})
+	escRuns(r, []string{"J", "c"}, []string{"jsEscape", "cssEscape"}, "")
 }
